@@ -67,6 +67,11 @@ def gen_cases(tier, seed, gen, effort):
         rules = [gen_rule(rnd, i, dup) for i in range(n)]
         files = [f"rule_{rnd.choice(range(max(1, n - 1)))}.yml" for _ in range(n)]
         dirs = [rnd.choice(["a", "b"]) for _ in range(n)]
+        if rnd.random() < 0.35:
+            # verbatim copies of a rule (the same file in two directories): they share id and title like any other duplicates
+            k = rnd.randrange(n)
+            for _ in range(rnd.choice([1, 1, 2])):
+                rules.append(copy.deepcopy(rules[k])); files.append(files[k]); dirs.append("b" if dirs[k] == "a" else "a")
         cases.append({"rules": rules, "files": files, "dirs": dirs, "vseed": rnd.getrandbits(30), "exclude": rnd.random() < 0.4})
     return cases, False
 
